@@ -9,7 +9,7 @@
    0 <= nanos < 10^9), a present public key is in canonical form ([pk_canon k = Some k]).
    [pk_canon] — crypto.UnmarshalPublicKey followed by crypto.MarshalPublicKey — is universally quantified. *)
 From Coq Require Import NArith ZArith List Bool.
-From Verif Require Import Model.Wire Model.WireReuse Model.WireCache Proofs.WireProofs Proofs.WireReuseProofs Proofs.WireCacheProofs.
+From Verif Require Import Model.Wire Model.WireReuse Model.WireCache Model.WireStore Proofs.WireProofs Proofs.WireReuseProofs Proofs.WireCacheProofs Proofs.WireStoreProofs.
 Import ListNotations.
 Open Scope N_scope.
 
@@ -330,6 +330,86 @@ Theorem C12_cache_observations_full :
 Proof. exact (conj (@cache_eq_getters) (@crun_nth)). Qed.
 Print Assumptions C12_cache_observations_full.
 
+(* ---- the block-store path (Model/WireStore.v; /repo/pkg/store/store.go UpdateState / GetState / SaveBlockData /
+   GetHeader / GetBlockData / GetSignature).  The node keeps ONE store object over ONE datastore and reads the same
+   keys again and again.  [sstep pk db o] is one call: (the datastore afterwards, what the call returned);
+   [sexec] runs a list of calls; [store_history pk d0 ops] is the list of (result, datastore) after every call of
+   a history that starts with a store opened over a datastore holding ANY bytes [d0].
+
+   A read (and a reopen: a new store object over the same datastore) leaves the datastore as it is; so does a
+   write that fails; and a read gives the same answer however many reads and reopens happened before it.  In the
+   model this is by construction — the state of the machine is the datastore, nothing a read returned earlier and
+   nothing a caller does to a returned value is an input of a later step; that IS the claim about the code: the
+   harness overwrites every byte slice of every value a call returned (and of every value passed to a write)
+   right after the call, and the real store's later answers are compared with this machine step by step. ---- *)
+Theorem C12_store_reads_pure_full : forall pk_canon db,
+  (forall o, is_write o = false -> fst (sstep pk_canon db o) = db) /\
+  (forall mid, forallb (fun o => negb (is_write o)) mid = true -> sexec pk_canon db mid = db) /\
+  (forall mid o, forallb (fun o => negb (is_write o)) mid = true ->
+                 snd (sstep pk_canon (sexec pk_canon db mid) o) = snd (sstep pk_canon db o)) /\
+  (forall o, snd (sstep pk_canon db o) = RDone false -> fst (sstep pk_canon db o) = db).
+Proof. exact store_reads_pure_all. Qed.
+Print Assumptions C12_store_reads_pure_full.
+
+(* what a read returns is a function of the bytes stored under the key(s) it reads, of nothing else *)
+Theorem C12_store_reads_from_stored_bytes_full : forall pk_canon a b,
+  (db_state a = db_state b -> get_state a = get_state b) /\
+  (forall h, mget N.eqb (db_headers a) h = mget N.eqb (db_headers b) h -> get_header pk_canon a h = get_header pk_canon b h) /\
+  (forall h, mget N.eqb (db_headers a) h = mget N.eqb (db_headers b) h ->
+             mget N.eqb (db_datas a) h = mget N.eqb (db_datas b) h -> get_block pk_canon a h = get_block pk_canon b h) /\
+  (forall h, mget N.eqb (db_sigs a) h = mget N.eqb (db_sigs b) h -> get_sig a h = get_sig b h).
+Proof. exact reads_from_stored_bytes. Qed.
+Print Assumptions C12_store_reads_from_stored_bytes_full.
+
+(* the state: from ANY datastore, UpdateState of a well-formed state succeeds, and after ANY calls that are not
+   an UpdateState — GetState calls whose results the caller then writes into, reopens, block saves, failed or
+   not — GetState returns exactly that state *)
+Theorem C12_store_state_roundtrip_full : forall pk_canon db v mid, wf_state v ->
+  forallb (fun o => negb (is_update_state o)) mid = true ->
+  snd (sstep pk_canon db (SUpdateState v)) = RDone true /\
+  snd (sstep pk_canon (sexec pk_canon (fst (sstep pk_canon db (SUpdateState v))) mid) SGetState) = RState (Some v).
+Proof. exact state_read_returns_last_write. Qed.
+Print Assumptions C12_store_state_roundtrip_full.
+
+(* blocks: from ANY datastore, SaveBlockData of a well-formed signed header and data succeeds, and after ANY calls
+   that do not save a block of the same height, GetHeader / GetBlockData / GetSignature at that height return
+   exactly the header, the data and the signature that were saved *)
+Theorem C12_store_block_roundtrip_full : forall pk_canon db sh d sg mid, wf_signed_header pk_canon sh -> wf_data d ->
+  let h := h_height (sh_header sh) in
+  forallb (fun o => negb (saves_height h o)) mid = true ->
+  snd (sstep pk_canon db (SSaveBlock sh d sg)) = RDone true /\
+  let db' := sexec pk_canon (fst (sstep pk_canon db (SSaveBlock sh d sg))) mid in
+  snd (sstep pk_canon db' (SGetHeader h)) = RHeader (Some sh) /\
+  snd (sstep pk_canon db' (SGetBlock h)) = RBlock (Some (sh, d)) /\
+  snd (sstep pk_canon db' (SGetSig h)) = RSig (Some sg).
+Proof. exact block_read_returns_last_write. Qed.
+Print Assumptions C12_store_block_roundtrip_full.
+
+(* the same about the observation list the harness compares, with hypotheses on the INPUTS of the history only:
+   any initial datastore content, any calls before, the write of a well-formed value, calls that do not write the
+   same key, the read, anything after: the observation at the read's position is the value that was written *)
+Theorem C12_store_history_full :
+  (forall pk_canon d0 pre v mid post, wf_state v ->
+     forallb (fun o => negb (is_update_state o)) mid = true ->
+     exists db, nth_error (store_history pk_canon d0 (pre ++ SUpdateState v :: mid ++ SGetState :: post)) (length pre + S (length mid)) =
+                Some (RState (Some v), db)) /\
+  (forall pk_canon d0 pre sh d sg mid post, wf_signed_header pk_canon sh -> wf_data d ->
+     let h := h_height (sh_header sh) in
+     forallb (fun o => negb (saves_height h o)) mid = true ->
+     forall rd want, (rd = SGetHeader h /\ want = RHeader (Some sh)) \/ (rd = SGetBlock h /\ want = RBlock (Some (sh, d))) \/
+                     (rd = SGetSig h /\ want = RSig (Some sg)) ->
+     exists db, nth_error (store_history pk_canon d0 (pre ++ SSaveBlock sh d sg :: mid ++ rd :: post)) (length pre + S (length mid)) =
+                Some (want, db)).
+Proof. exact (conj store_history_state store_history_block). Qed.
+Print Assumptions C12_store_history_full.
+
+(* the observation list is the list of the steps of [sexec] *)
+Theorem C12_store_observations_full : forall pk_canon ops db pre o post, ops = pre ++ o :: post ->
+  nth_error (srun pk_canon db ops) (length pre) =
+  Some (snd (sstep pk_canon (sexec pk_canon db pre) o), fst (sstep pk_canon (sexec pk_canon db pre) o)).
+Proof. exact srun_nth. Qed.
+Print Assumptions C12_store_observations_full.
+
 (* ---- golden vectors: the model reproduces, byte for byte, encodings recorded from the pinned tree
    (harness/c12/golden_c12.json; the Go side re-checks bytes and SHA-256 hashes on every run) ---- *)
 Definition g_header_v : wheader := {| h_version := {| v_block := 11312320731339805339%N; v_app := 126223181233767173%N |}; h_height := 7288491879053759085%N; h_time := 68%N; h_last_header := []%N; h_last_commit := [8;229;138;118;212;60;111;95]%N; h_data_hash := [0;0;0]%N; h_consensus := [34;6;243;166;127;207]%N; h_app_hash := []%N; h_last_results := [141;25;231;222;10;124]%N; h_proposer := [130;155;14;94;233;115]%N; h_validator := []%N; h_chain := [116;101;115;116;45;99;104;97;105;110]%N |}.
@@ -466,4 +546,33 @@ Qed.
 Example ex_cache_save_fails :
   let bad := {| d_meta := Some {| m_chain := [255]; m_height := 1; m_time := 0; m_last := [] |}; d_txs := [] |} in
   map (fun o => fst (fst (fst (fst o)))) (cache_history data_enc dec_data dir_none [] [] [OSetItem 1 bad; OSave; OLoad]) = [true; false; true].
+Proof. vm_compute. reflexivity. Qed.
+
+(* ---- block store: non-vacuity.  A node writes its state, reads it (the caller then scribbles over the hashes it
+   got), reads it again, restarts, reads it again: every read is the state that was written; a state whose chain
+   id is not UTF-8 is refused and the old one stays; bytes that are not a State are an error, not a value. ---- *)
+Definition ex_state (n : N) : wstate :=
+  {| s_version := {| v_block := 1; v_app := 2 |}; s_chain := [99; 49; 50]; s_initial := 1; s_last_height := n;
+     s_time := (1700000000%Z, 5%Z); s_da := 7; s_last_results := [n; n]; s_app := [1; 2; 3; n] |}.
+Example ex_state_wf : wf_state (ex_state 9).
+Proof.
+  unfold wf_state, wf_version, wf_time, sz, len, two64, two63z. cbn. repeat split; try reflexivity; try discriminate.
+Qed.
+Definition ex_bad_state : wstate :=
+  {| s_version := version0; s_chain := [255]; s_initial := 0; s_last_height := 0; s_time := zero_time; s_da := 0;
+     s_last_results := []; s_app := [] |}.
+Example ex_store_history :
+  map fst (store_history (fun k => Some k) {| db_state := Some [16]; db_headers := []; db_datas := []; db_sigs := [] |}
+             [SGetState; SUpdateState (ex_state 9); SGetState; SGetState; SReopen; SGetState; SUpdateState ex_bad_state; SGetState;
+              SUpdateState (ex_state 10); SGetState; SGetHeader 3]) =
+  [RState None; RDone true; RState (Some (ex_state 9)); RState (Some (ex_state 9)); RDone true; RState (Some (ex_state 9));
+   RDone false; RState (Some (ex_state 9)); RDone true; RState (Some (ex_state 10)); RHeader None].
+Proof. vm_compute. reflexivity. Qed.
+Definition ex_sh (n : N) : wsigned_header := {| sh_header := ex_header; sh_sig := [n; 7]; sh_signer := lone_address |}.
+Example ex_store_block_history :
+  map fst (store_history (fun k => Some k) db_empty
+             [SSaveBlock (ex_sh 1) (ex_data 1) [5; 5]; SGetBlock 300; SGetHeader 300; SGetSig 300; SGetBlock 301;
+              SSaveBlock (ex_sh 2) (ex_data 2) [6]; SReopen; SGetBlock 300; SGetSig 300]) =
+  [RDone true; RBlock (Some (ex_sh 1, ex_data 1)); RHeader (Some (ex_sh 1)); RSig (Some [5; 5]); RBlock None;
+   RDone true; RDone true; RBlock (Some (ex_sh 2, ex_data 2)); RSig (Some [6])].
 Proof. vm_compute. reflexivity. Qed.
